@@ -742,7 +742,7 @@ def _proxy_fields(ctx: Ctx) -> dict[str, set[str]]:
                 v = norm(s.value)
                 if v.endswith("Manager()"):
                     managers.add(s.targets[0].id)
-                if isinstance(s.value, ast.Call) and isinstance(s.value.func, ast.Attribute) and s.value.func.attr in ("dict", "list", "Lock", "Namespace") and norm(s.value.func.value) in managers:
+                if isinstance(s.value, ast.Call) and isinstance(s.value.func, ast.Attribute) and s.value.func.attr in ("dict", "list", "Lock", "Namespace") and (norm(s.value.func.value) in managers or norm(s.value.func.value).endswith("Manager()")):
                     proxies.add(s.targets[0].id)
                 if isinstance(s.targets[0], ast.Attribute):
                     pass
